@@ -509,13 +509,22 @@ Definition measure (st : state) : nat :=
   (length (st_fifo st) + 2 * list_sum (map (fun e => length e.2) (st_bg st)) +
    list_sum (map (fun ss => length (s_pend ss.2) + (if s_conn ss.2 then 1 else 0)) (st_strs st)))%nat.
 
+(* The checker works on states whose ghost history of pushed frames is erased: the history
+   influences no step, but it records the order of pushes, which would keep apart hidden
+   states that can never be told apart again. *)
+Definition erase (st : state) : state :=
+  State (st_unowned st) (st_deadinlet st) (st_chans st) (st_cap st) (st_writers st) (st_bg st) (st_npos st)
+        (st_fifo st) (st_strs st) (st_closed st) [].
+Definition hsucc_e (st : state) : list state := map erase (hsucc st).
+Definition vstep_e (st : state) (o : op) : list state := map erase (vstep st o).
+
 (* breadth-first closure under compatible hidden steps: [seen] includes [frontier], and
    every compatible hidden successor of a seen state outside the frontier is seen *)
 Fixpoint bfs (fuel : nat) (obs : observation) (seen frontier : list state) : list state :=
   match fuel with
   | O => seen
   | S n =>
-      let cand := filter (compat obs) (flat_map hsucc frontier) in
+      let cand := filter (compat obs) (flat_map hsucc_e frontier) in
       let new := dedup (filter (fun st => negb (inb st seen)) cand) in
       bfs n obs (seen ++ new) new
   end.
@@ -525,7 +534,7 @@ Definition closure (obs : observation) (sts : list state) : list state :=
   bfs (max_measure s0) obs s0 s0.
 
 Definition after_op (obs : observation) (sts : list state) (o : op) : list state :=
-  closure obs (flat_map (fun st => vstep st o) sts).
+  closure obs (flat_map (fun st => vstep_e st o) sts).
 Definition states_after (chans : list (N * ckind)) (cap : nat) (script : list op)
            (obs : observation) : list state :=
   fold_left (after_op obs) script (closure obs [init chans cap]).
